@@ -25,7 +25,9 @@ from .values import (
     to_integer,
     to_string,
     js_pow,
+    _JS_WHITESPACE,
     array_index,
+    is_nan,
     js_number,
     js_typeof,
 )
@@ -2076,13 +2078,13 @@ class VM:
             return s.upper()
 
         def trim(*args):
-            return s.strip()
+            return s.strip(_JS_WHITESPACE)
 
         def trimStart(*args):
-            return s.lstrip()
+            return s.lstrip(_JS_WHITESPACE)
 
         def trimEnd(*args):
-            return s.rstrip()
+            return s.rstrip(_JS_WHITESPACE)
 
         def concat(*args):
             result = s
